@@ -50,10 +50,10 @@ type BatchResult struct {
 	// SigRuns counts, per violation signature, every run of this worker that showed it (Violations
 	// keeps only the first few runs per signature, so that a frequent signature - a known finding,
 	// say - cannot crowd out a rare one)
-	SigRuns  map[string]int64 `json:"sig_runs"`
-	Troubles []string         `json:"troubles"`
-	NextIndex  int              `json:"next_index"`
-	WallS      float64          `json:"wall_s"`
+	SigRuns   map[string]int64 `json:"sig_runs"`
+	Troubles  []string         `json:"troubles"`
+	NextIndex int              `json:"next_index"`
+	WallS     float64          `json:"wall_s"`
 }
 
 type Sample struct {
